@@ -32,9 +32,9 @@ impl Default for Root {
 }
 
 pub fn root_from_document(document: &Document) -> Result<Root> {
-    let root = document
-        .descendants()
-        .find(|n| n.is_e57_tag("e57Root"))
+    // Only the root element itself counts, elements with the same name can be nested in extensions
+    let root = Some(document.root_element())
+        .filter(|n| n.is_e57_tag("e57Root"))
         .invalid_err("Unable to find e57Root tag in XML document")?;
 
     // Required fields
